@@ -1,0 +1,8 @@
+//go:build !verif
+
+// Package verifhook provides named no-op points used by the external
+// verification harness. Without the "verif" build tag Point does nothing.
+package verifhook
+
+// Point is a no-op unless built with -tags verif.
+func Point(name string, id uint32) {}
